@@ -9,6 +9,7 @@ import (
 	"fmt"
 	"go/ast"
 	"go/parser"
+	"go/printer"
 	"go/token"
 	"os"
 	"path/filepath"
@@ -342,6 +343,43 @@ func main() {
 		}
 	}
 	sb.WriteString(fmt.Sprintf("Definition go_other_methods_touching_state : nat := %d.\n", len(extra)))
+	// the shared state itself: the fields of Middleware, in declaration order (a further field -- a cache, a snapshot of the
+	// last applied Config -- is state that the protocol model does not have)
+	var fields []string
+	for _, d := range f.Decls {
+		gd, ok := d.(*ast.GenDecl)
+		if !ok || gd.Tok != token.TYPE {
+			continue
+		}
+		for _, sp := range gd.Specs {
+			ts := sp.(*ast.TypeSpec)
+			st, isStruct := ts.Type.(*ast.StructType)
+			if ts.Name.Name != "Middleware" || !isStruct {
+				continue
+			}
+			for _, fl := range st.Fields.List {
+				var tb strings.Builder
+				printer.Fprint(&tb, fset, fl.Type)
+				if len(fl.Names) == 0 {
+					fields = append(fields, "FEmbedded")
+				}
+				for _, n := range fl.Names {
+					switch n.Name + " " + tb.String() {
+					case "mu sync.RWMutex":
+						fields = append(fields, "FMu")
+					case "icfg *internalConfig":
+						fields = append(fields, "FIcfg")
+					case "debug bool":
+						fields = append(fields, "FDebug")
+					default:
+						fields = append(fields, "FOther")
+					}
+				}
+			}
+		}
+	}
+	sb.WriteString("Inductive gfield := FMu | FIcfg | FDebug | FOther | FEmbedded.\n")
+	sb.WriteString("Definition go_Middleware_fields : list gfield := [" + strings.Join(fields, "; ") + "].\n")
 	old, _ := os.ReadFile(os.Args[2])
 	if string(old) != sb.String() {
 		if err := os.WriteFile(os.Args[2], []byte(sb.String()), 0o644); err != nil {
